@@ -147,7 +147,7 @@ EXTRA_TEXT = {
     'C03': 'History unit: read s_a/s_v/s_d, change the record or the response periods through a public operation (11 operations), read again: fresh-object values. Energy spectra are replayed against their defining sums at the requested damping (xi = 0 included).',
     'C04': 'The smoothing settings mean what they say (unbounded, from an arbitrary state incl. stale bookkeeping): smooth_freq_points = k gives k log-spaced points over the range currently in force, smooth_freq_range = (a, b) the current number of points over (a, b), set_smooth_fa_frequecies_by_range and smooth_fa_freqs = f likewise; the smoothed spectrum is dropped.',
     'C05': 'Bounded: Cluster.time_match / same_start on two-signal clusters whose second record may be LONGER than the first (lags -1/0/1, either master, float and int): every signal stays a numeric array with len == npts and time == dt*[0..npts-1]; caller arrays unchanged.',
-    'C06': 'calc_fa_spectrum with every p2_plus in 0..3 as its own case (0 is falsy). History unit: read the spectrum, change the record through a public operation (8-11 operations, Signal and AccSignal), read again: fresh-object spectrum.',
+    'C06': 'Inverse helpers: unbounded, a half spectrum of ANY length m gives back 2m samples and is left untouched; bounded, a spectrum requested with an explicit n that is not a power of two (6, 14; thorough 6..18) comes back with all n samples, exactly reconstructed for n = 6 (reports fixed defect F13 if it returns; the identity 2**(ln x/ln 2) = x is applied to symbolic x only, concrete x is evaluated in float64). calc_fa_spectrum with every p2_plus in 0..3 as its own case (0 is falsy). History unit: read the spectrum, change the record through a public operation (8-11 operations, Signal and AccSignal), read again: fresh-object spectrum.',
     'C07': 'History unit: read the smoothed spectrum, change the record or the smoothing frequencies through a public operation (12 operations incl. set_smooth_fa_frequecies_by_range), read again: fresh-object values.',
     'C08': 'History unit (unbounded): read velocity, displacement, PGA, PGV, PGD, change the record through one of 13 public operations, read again: the values of a freshly constructed object with the new record.',
     'C09': 'Every measure is run on float AND integer-dtype records.',
@@ -161,7 +161,7 @@ EXTRA_TEXT = {
     'C14': 'resample_to_approx_dt: the record itself (same length, same values) is what scipy.signal.resample is called on and the returned values are exactly its result.',
     'C15': 'Two-call histories: a transform returned earlier is not overwritten by a later transform. Unbounded (any length, even and odd): transform and transform_w_scipy_fft return cell-wise equal arrays of shape (n//2, 2(n//2)) (one uninterpreted row-wise inverse DFT of the same product); thorough tier: the same at n = 258 (129 = 128 + 1 rows) with uninterpreted kernels.',
     'C16': 'Two-call histories: a path that was saved to and loaded from before (other record, time step, label) loads back what was saved last.',
-    'C17': 'The coefficients handed to filtfilt are the Butterworth design of THIS request (uninterpreted design function of (type, order, cut-offs): congruent, so a correctly keyed design cache verifies and a cache that ignores the filter type fails), also after an earlier request of another kind on another signal.',
+    'C17': 'running_average for widths 1..9 (thorough ..25) incl. windows longer than the record. The coefficients handed to filtfilt are the Butterworth design of THIS request (uninterpreted design function of (type, order, cut-offs): congruent, so a correctly keyed design cache verifies and a cache that ignores the filter type fails), also after an earlier request of another kind on another signal.',
     'C19': 'Two-call histories: the same call made twice on the same signal gives the same result.',
 }
 EXTRA_NOTE = {
